@@ -259,7 +259,8 @@ def list_child_segments(
 
 def extract_identifier(col_segment: BaseSegment) -> str:
     identifiers = list_child_segments(col_segment)
-    col_identifier = identifiers[-1]
+    # exasol lexes [x] as one symbol, such a segment has no identifier child, keep its text
+    col_identifier = identifiers[-1] if identifiers else col_segment
     return str(col_identifier.raw)
 
 
@@ -285,7 +286,8 @@ def extract_column_qualifier(segment: BaseSegment) -> Optional[ColumnQualifierTu
         cqt = ColumnQualifierTuple(column, parent)
     elif segment.type == "column_reference":
         sub_segments = list_child_segments(segment)
-        column = sub_segments[-1].raw
+        # exasol lexes [x] as one symbol, such a reference has no identifier child, keep its text
+        column = sub_segments[-1].raw if sub_segments else segment.raw
         parent = sub_segments[-2].raw if len(sub_segments) > 1 else None
         cqt = ColumnQualifierTuple(column, parent)
     elif segment.type == "identifier":
